@@ -264,6 +264,11 @@ def cases(seed, count):
         src = vla_program(el)
         for n in LENGTHS:
             out.append((f'vla-{el}', src, [str(n), str(r.choice([-1, 0, 1, 7, 8, 9, 40]))]))
+        # lengths whose byte size wraps around to (almost) nothing at 16, 24 and 32 bits, with the two k values
+        # for which the template stores to a[k] unconditionally: only the language's own guards stand in the way
+        for n in (-32768, -32767, -32766, -32764, -32760, -8388608, -8388607, -8388606, -2147483648, -2147483647, -2147483646):
+            for k in (7, 40):
+                out.append((f'vla-{el}-wrap', src, [str(n), str(k)]))
     for n in (0, 1, 2, 5, 9):
         for k in (0, 1, 4):
             out.append(('literal-calls', literal_with_calls(), [str(n), str(k)]))
